@@ -54,6 +54,8 @@ pub open spec fn henc_wf(e: HuffmanOriginalEncoding) -> bool {
     &&& forall|i: int| 0 <= i < 19 ==> #[trigger] e.code_lengths[i] <= 7
     &&& forall|i: int| 0 <= i < e.lengths@.len() ==> rle_ok(#[trigger] e.lengths@[i])
     &&& rle_total(e.lengths@) == e.num_literals + e.num_dist
+    // the code-length code is a complete prefix code (the reader builds its decoding tree, which checks this)
+    &&& kraft(e.code_lengths@)
 }
 pub open spec fn henc_bits(e: HuffmanOriginalEncoding) -> Seq<bool> {
     lsb_bits((e.num_literals - 257) as nat, 5) + lsb_bits((e.num_dist - 1) as nat, 5) + lsb_bits((e.num_code_lengths - 4) as nat, 4)
